@@ -1724,6 +1724,9 @@ pub fn eval_ternary_equality(lhs: &Value, rhs: &Value) -> Option<bool> {
     Value::Context(ls) => match rhs {
       Value::Context(rs) => {
         if ls.keys().len() == rs.keys().len() {
+          // the result must not depend on the order the entries are visited in (a = b is the same as b = a):
+          // a missing key or a different value makes the contexts NOT EQUAL, whatever the other entries are
+          let mut comparable = true;
           for (key1, value1) in ls.deref() {
             if let Some(value2) = rs.get_entry(key1) {
               if let Some(equal) = eval_ternary_equality(value1, value2) {
@@ -1732,15 +1735,15 @@ pub fn eval_ternary_equality(lhs: &Value, rhs: &Value) -> Option<bool> {
                 }
               } else {
                 // values in entries can not be compared
-                return None;
+                comparable = false;
               }
             } else {
               // there is no such key in the right-side context
               return Some(false);
             }
           }
-          // contexts are EQUAL
-          return Some(true);
+          // contexts are EQUAL, unless some values could not be compared
+          return if comparable { Some(true) } else { None };
         }
         // contexts have different number of keys, so they are NOT EQUAL
         Some(false)
